@@ -21,6 +21,26 @@ def incs(tree):
     return ["-I", os.path.join(tree, "include"), "-I", os.path.join(tree, "include/teakra/impl"), "-I", os.path.join(tree, "src"), '-I', os.path.join(VERIF, 'harness')]
 
 
+def gen_tv_load(tree=REPO):
+    """extract the TestCase -> RegisterState loading statements of src/test_verifier/main.cpp (from `regs.Reset();` up to the
+    test-space copy loop) into <build>/gen/<hash>/tv_load.inc; returns the -I flags for it"""
+    src = open(os.path.join(tree, 'src', 'test_verifier', 'main.cpp')).read()
+    a = src.find('regs.Reset();')
+    b = src.find('for (u16 offset = 0; offset < TestSpaceSize; ++offset)', a)
+    if a < 0 or b < 0:
+        sys.stderr.write('BUILD FAILED: cannot locate the state loader in src/test_verifier/main.cpp\n')
+        raise SystemExit(3)
+    body = src[a:b]
+    d = os.path.join(BUILD, 'gen', hashlib.sha256(body.encode()).hexdigest()[:16])
+    os.makedirs(d, exist_ok=True)
+    f = os.path.join(d, 'tv_load.inc')
+    if not os.path.exists(f):
+        tmp = f + '.%d.tmp' % os.getpid()
+        open(tmp, 'w').write(body)
+        os.replace(tmp, f)
+    return ['-I', d]
+
+
 def _run(cmd, **kw):
     r = subprocess.run(cmd, capture_output=True, text=True, **kw)
     if r.returncode != 0:
